@@ -187,7 +187,7 @@ class BaseInput:
         Parameters:
             hed_schema (HedSchema or None): The schema to use to identify defs.
         """
-        from df_util import shrink_defs
+        from hed.models.df_util import shrink_defs
         shrink_defs(self._dataframe, hed_schema=hed_schema, columns=self._mapper.get_tag_columns())
 
     def expand_defs(self, hed_schema, def_dict):
@@ -197,7 +197,7 @@ class BaseInput:
             hed_schema (HedSchema or None): The schema to use to identify defs.
             def_dict (DefinitionDict): The definitions to expand.
         """
-        from df_util import expand_defs
+        from hed.models.df_util import expand_defs
         expand_defs(self._dataframe, hed_schema=hed_schema, def_dict=def_dict, columns=self._mapper.get_tag_columns())
 
     def to_excel(self, file):
